@@ -236,7 +236,7 @@ def generate(repo, emit, src, func_body):
     oks = b and re.search(r'if\s*\(\s*gc->entries\[i\]\.marked\s*\)\s*\{\s*i\+\+;\s*continue;\s*\}\s*'
                           r'if\s*\(\s*not\s+gc->entries\[i\]\.root\s+and\s+not\s+gc->entries\[i\]\.marked\s*\)\s*\{\s*'
                           r'gc->freelist\[gc->freenum\]\s*=\s*gc->entries\[i\]\.ptr;', b) \
-        and re.search(r'if\s*\(\s*gc->freelist\[i\]\s*\)\s*\{\s*dealloc\(destruct\(gc->freelist\[i\]\)\);', b)
+        and re.search(r'if\s*\(\s*gc->freelist\[i\]\s*\)\s*\{[^}]*dealloc\(destruct\(\s*(?:gc->freelist\[i\]|\w+)\s*\)\);', b)
     emit('hdr_sweep_rule', 'Definition hdr_sweep_rule : bool := true.' if oks else None)
     b = func_body(g, r'static\s+void\s+GC_Rem_Ptr\s*\(\s*struct\s+GC\*\s*gc\s*,\s*var\s+ptr\s*\)\s*\{')
     okr = b and re.search(r'if\s*\(\s*gc->entries\[i\]\.ptr\s+is\s+ptr\s*\)\s*\{\s*var\s+freeitem\s*=\s*gc->entries\[i\]\.ptr;', b) \
